@@ -104,15 +104,13 @@ theorem allocOneshot_mallocMax (s : State) (size : Nat) :
 
 theorem freeReusable_mallocMax (s : State) (p : Loc) (size : Nat) :
     (freeReusable s p size).mallocMax = s.mallocMax := by
-  unfold freeReusable
-  simp only
+  simp only [freeReusable]
   split
   · rfl
   · split <;> rfl
 
 theorem reset_mallocMax (s : State) (hard : Bool) : (reset s hard).mallocMax = s.mallocMax := by
-  unfold reset
-  simp only
+  simp only [reset]
   split
   · split
     · rfl
@@ -121,8 +119,7 @@ theorem reset_mallocMax (s : State) (hard : Bool) : (reset s hard).mallocMax = s
 
 theorem allocReusable_mallocMax (s : State) (size : Nat) :
     (allocReusable s size).1.mallocMax = s.mallocMax := by
-  unfold allocReusable
-  simp only
+  simp only [allocReusable]
   split
   · split
     · rfl
@@ -172,8 +169,7 @@ and below `2^32` for an arena whose `malloc` refuses blocks of `2^32` bytes or m
 theorem allocReusable_spec {a a' : State} {size allocated : Nat} {p : Loc}
     (h : allocReusable a size = (a', some p, allocated)) (h0 : 0 < size) (h1 : size ≤ u64) :
     size ≤ allocated ∧ allocated ≤ max 2048 size ∧ (a.mallocMax < u32 → allocated < u32) := by
-  unfold allocReusable at h
-  simp only at h
+  simp only [allocReusable] at h
   split at h
   · rename_i hi
     have hs := le_slotSize h0 h1 hi
